@@ -16,6 +16,7 @@ import (
 
 	api_v1 "k8s.io/api/core/v1"
 	networking "k8s.io/api/networking/v1"
+	meta_v1 "k8s.io/apimachinery/pkg/apis/meta/v1"
 	"k8s.io/apimachinery/pkg/apis/meta/v1/unstructured"
 	"k8s.io/apimachinery/pkg/runtime"
 	dynamicfake "k8s.io/client-go/dynamic/fake"
@@ -41,7 +42,10 @@ type VerifC08Opts struct {
 	AppProtect     bool
 	InternalRoutes bool
 	IngressClass   string
-	Configurator   *configs.Configurator
+	// controller level only: the special secrets of the controller (-wildcard-tls-secret, -default-server-tls-secret), ns/name
+	WildcardTLSSecret   string
+	DefaultServerSecret string
+	Configurator        *configs.Configurator
 }
 
 // VerifC08 wraps the controller.
@@ -209,11 +213,14 @@ func NewVerifC08Ctl(o VerifC08Opts, internalRoutes bool) *VerifC08Ctl {
 		Namespace:                    []string{""},
 		SecretNamespace:              []string{""},
 		ControllerNamespace:          "nginx-ingress",
+		Pod:                          &api_v1.Pod{ObjectMeta: meta_v1.ObjectMeta{Name: "nginx-ingress-0", Namespace: "nginx-ingress"}},
 		AreCustomResourcesEnabled:    true,
 		IsNginxPlus:                  o.IsPlus,
 		EnableOIDC:                   o.EnableOIDC,
 		AppProtectEnabled:            o.AppProtect,
 		InternalRoutesEnabled:        internalRoutes,
+		WildcardTLSSecret:            o.WildcardTLSSecret,
+		DefaultServerSecret:          o.DefaultServerSecret,
 		MetricsCollector:             collectors.NewControllerFakeCollector(),
 		GlobalConfigurationValidator: validation.NewGlobalConfigurationValidator(map[int]bool{80: true, 443: true}),
 		TransportServerValidator:     validation.NewTransportServerValidator(false, false, o.IsPlus),
